@@ -1,5 +1,40 @@
 (* C12 — property theorems only (real-number semantics of the model text, instance RNum).
-   Each is closed by [exact] of a lemma from proofs/C12_ISA.v or proofs/C12_Proofs.v. *)
+   Each is closed by [exact] of a lemma from proofs/C12_ISA.v, proofs/C12_Proofs.v or proofs/C12_MEEM.v.
+
+   READ THIS FIRST — what these statements do and do not say.
+
+   Domain.  Every theorem carries the hypotheses of the property's quantifier: positive certification indices and
+   calibration flows (tpos), k > 0, physical ambient state (0 < Ta, 0 < P; for NOx also [humidity_defined]: the
+   water-vapour partial pressure at 60 % humidity is below the ambient pressure, i.e. the denominator of Eq. 44 is
+   positive), positive engine count / reference state for FFM2, 0 < p for the ISA inverse, the guard region for MEEM.
+   Coq's ln and division are total (ln x = 0 for x <= 0, x / 0 = x * /0 with /0 an unspecified real), so several of
+   these laws remain provable outside that domain; such wider statements are NOT claimed here, Python returns NaN or
+   inf there.  Statements that still quantify over arguments on which totalisation could matter, and why it does not:
+     - C12_isa_pressure_altitude_inverse (forall h): the tropospheric branch is only taken for h <= 11 km, where
+       T0 + beta h > 0; no logarithm of a non-positive number occurs.
+     - C12_hcco_clamp_rules / C12_thrust_cat_*: pure order reasoning on reals; the only divisions are by the constant 2
+       and by a slope proved not numerically zero.
+     - C12_pm_scales_with_cert_EI (3rd clause), C12_meem_nonneg_partial (2nd, 3rd clause): component lemmas about
+       [meem_adjust] for ARBITRARY P3, P3ref; they are meaningful for 0 < P3, 0 < P3ref, which C12_meem_nonneg and
+       C12_meem_denominators_nonzero establish inside the guard.  Fuel flow ff <= 0 is inside the domain on purpose:
+       the code (and the model) clamp it (NOx) or map it to the zero / horizontal branch (HC/CO) before any logarithm.
+
+   'Finite'.  The property also asks for finite results.  Over the reals every value is finite, so NO theorem here says
+   anything about finiteness for NOx, HC/CO, FFM2, SOx, PMvol or SCOPE11; binary64 overflow / NaN is not reasoned
+   about.  What is proved instead is the real-number precondition of finiteness (non-zero denominators, positive bases
+   of powers / logarithms) — explicitly for MEEM (C12_meem_denominators_nonzero), implicitly for the others via the
+   hypotheses above.  Finiteness itself is checked only on the implementation's outputs by harness/c12.py.  Known
+   consequence: for nearly equal (not equal) idle / approach calibration flows the HC/CO log-log slope is of order
+   1e5 and the exact value leaves the binary64 range for small flows — the cited method, not the code; the harness
+   skips points whose exact value lies outside 1e+-250 instead of reporting 'not finite'.
+
+   Branch-guard restatements.  C12_hcco_clamp_rules clauses 1-4, C12_hcco_flat_and_low_thrust_rules clauses 2-3 and
+   C12_thrust_cat_exactly_one unfold the MODEL's own branch guards: they document which rule the model applies when,
+   they are not independent facts.  Their genuine content is: the segments meet at the raw breakpoint (clause 5),
+   rule (c) is flat at every positive flow (clause 1 of the second theorem), and monotonicity of the category.  That the
+   CODE applies the same guards is established elsewhere: link/C12_Link.v (thrust category and np.select order by
+   reflexivity on the regenerated text) and the binary64 correspondence + independent oracle of harness/c12.py
+   (EI_HCCO's branching is hand-modelled). *)
 From Coq Require Import ZArith Reals List String Bool.
 From AV Require Import lib.Num lib.FloatMath model.C12_Base model.C12_Model proofs.C12_ISA proofs.C12_Proofs proofs.C12_MEEM.
 Import ListNotations.
@@ -26,18 +61,20 @@ Print Assumptions C12_isa_continuous_at_tropopause.
 
 (* ---- Fuel Flow Method 2 ---------------------------------------------------------------------------- *)
 Theorem C12_ffm2_linear_in_fuel_flow :
-  forall k f1 f2 P Ta M z PSL TSL n : R,
+  forall k f1 f2 P Ta M z PSL TSL n : R, 0 < P -> 0 < Ta -> 0 < PSL -> 0 < TSL -> 0 < n ->
     @ffm2 RNum (k * f1) P Ta M z PSL TSL n = k * @ffm2 RNum f1 P Ta M z PSL TSL n /\
     @ffm2 RNum (f1 + f2) P Ta M z PSL TSL n = @ffm2 RNum f1 P Ta M z PSL TSL n + @ffm2 RNum f2 P Ta M z PSL TSL n.
-Proof. intros. exact (conj (ffm2_scales k f1 P Ta M z PSL TSL n) (ffm2_additive f1 f2 P Ta M z PSL TSL n)). Qed.
+Proof. exact ffm2_linear_physical. Qed.
 Print Assumptions C12_ffm2_linear_in_fuel_flow.
 
 Theorem C12_ffm2_nonneg :
-  forall ff P Ta M z PSL TSL n : R, 0 <= ff -> 0 < P -> 0 < PSL -> 0 < n -> 0 <= @ffm2 RNum ff P Ta M z PSL TSL n.
-Proof. exact ffm2_nonneg. Qed.
+  forall ff P Ta M z PSL TSL n : R, 0 <= ff -> 0 < P -> 0 < Ta -> 0 < PSL -> 0 < TSL -> 0 < n ->
+    0 <= @ffm2 RNum ff P Ta M z PSL TSL n.
+Proof. exact ffm2_nonneg_physical. Qed.
 Print Assumptions C12_ffm2_nonneg.
-Example C12_ffm2_nonneg_nonvacuous : 0 <= (1:R) /\ 0 < (22632:R) /\ 0 < (101325:R) /\ 0 < (2:R).
-Proof. exact ffm2_hyps_satisfiable. Qed.
+Example C12_ffm2_nonneg_nonvacuous :
+  0 <= (1:R) /\ 0 < (22632:R) /\ 0 < (21665/100:R) /\ 0 < (101325:R) /\ 0 < (28815/100:R) /\ 0 < (2:R).
+Proof. exact ffm2_physical_satisfiable. Qed.
 
 (* ---- thrust categories: for ALL calibration flows (monotone or not, equal or not) ------------------- *)
 Theorem C12_thrust_cat_exactly_one :
@@ -65,20 +102,26 @@ Proof. exact thrust_cat_examples. Qed.
    speciation fractions alone; every fuel flow (incl. <= 0, clamped), every calibration flow set (incl. equal
    and non-monotone; four equal flows use the flat line), every ambient state *)
 Theorem C12_nox_scales_with_cert_EI :
-  forall (k ff : R) (ei cal : tm) (Ta P : R), 0 < k -> tpos ei ->
+  forall (k ff : R) (ei cal : tm) (Ta P : R), 0 < k -> tpos ei -> tpos cal -> humidity_defined Ta P ->
     @bffm2_nox RNum ff (tscale k ei) cal Ta P =
     let '(nox, no, no2, hono, pno, pno2, phono) := @bffm2_nox RNum ff ei cal Ta P in
     (k * nox, k * no, k * no2, k * hono, pno, pno2, phono).
-Proof. exact bffm2_nox_scales. Qed.
+Proof. exact bffm2_nox_scales_physical. Qed.
 Print Assumptions C12_nox_scales_with_cert_EI.
-Example C12_nox_scales_nonvacuous : 0 < (2:R) /\ tpos (30, 25, 20, 18).
-Proof. exact nox_hyps_satisfiable. Qed.
+Example C12_nox_scales_nonvacuous :
+  (0 < (2:R) /\ tpos (30, 25, 20, 18) /\ tpos (2/10, 6/10, 15/10, 2) /\ 0 < (21665/100:R) /\ 0 < (22632:R)) /\
+  (forall Ta : R, 0 < Ta -> exists P, humidity_defined Ta P) /\
+  (* the hypothesis is exactly what keeps the humidity denominator positive *)
+  (forall Ta P : R, humidity_defined Ta P ->
+     0 < Ta + 1 / 100 /\
+     0 < P / @c_p0 RNum * @q RNum 1837 125 - @q RNum 3 5 * (@q RNum 1813 125000 * @pow10 RNum (@sat_beta RNum Ta))).
+Proof. exact (conj cert_data_satisfiable (conj humidity_defined_satisfiable humidity_defined_denominator)). Qed.
 
 Theorem C12_nox_nonneg_and_speciated :
-  forall (ff : R) (ei cal : tm) (Ta P : R),
+  forall (ff : R) (ei cal : tm) (Ta P : R), tpos ei -> tpos cal -> humidity_defined Ta P ->
     let '(nox, no, no2, hono, pno, pno2, phono) := @bffm2_nox RNum ff ei cal Ta P in
     0 < nox /\ 0 < no /\ 0 < no2 /\ 0 < hono /\ no + no2 + hono = nox /\ pno + pno2 + phono = 1.
-Proof. exact bffm2_nox_positive. Qed.
+Proof. exact bffm2_nox_positive_physical. Qed.
 Print Assumptions C12_nox_nonneg_and_speciated.
 
 (* the code before fix FC12a (numpy.polyfit's minimum-norm line for four equal calibration flows) is not
@@ -91,15 +134,18 @@ Print Assumptions C12_nox_all_equal_flows_before_fix_refuted.
 
 (* ---- BFFM2 HC / CO ------------------------------------------------------------------------------------ *)
 Theorem C12_hcco_scales_with_cert_EI :
-  forall (k ff : R) (ei cal : tm) (Ta P : R), 0 < k -> tpos ei ->
+  forall (k ff : R) (ei cal : tm) (Ta P : R), 0 < k -> tpos ei -> tpos cal -> 0 < Ta -> 0 < P ->
     @hcco RNum ff (tscale k ei) cal Ta P = k * @hcco RNum ff ei cal Ta P.
-Proof. exact hcco_scales. Qed.
+Proof. exact hcco_scales_physical. Qed.
 Print Assumptions C12_hcco_scales_with_cert_EI.
+Example C12_hcco_scales_nonvacuous :
+  0 < (2:R) /\ tpos (30, 25, 20, 18) /\ tpos (2/10, 6/10, 15/10, 2) /\ 0 < (21665/100:R) /\ 0 < (22632:R).
+Proof. exact cert_data_satisfiable. Qed.
 
 Theorem C12_hcco_nonneg :
-  forall (ff : R) (ei cal : tm) (Ta P : R),
+  forall (ff : R) (ei cal : tm) (Ta P : R), tpos ei -> tpos cal -> 0 < Ta -> 0 < P ->
     0 <= @hcco RNum ff ei cal Ta P /\ (0 < ff -> 0 < @hcco RNum ff ei cal Ta P).
-Proof. intros. exact (conj (hcco_nonneg ff ei cal Ta P) (hcco_positive_flow_positive ff ei cal Ta P)). Qed.
+Proof. exact hcco_nonneg_physical. Qed.
 Print Assumptions C12_hcco_nonneg.
 
 (* the documented SAGE clamping rules, for all real values of the log10 certification data *)
